@@ -50,6 +50,8 @@ pub fn dead_code_elimination(function: &il::Function) -> Result<il::Function, Er
             }
         });
 
+    // Every assignment that reaches a branch or an intrinsic, before that
+    // instruction is executed
     for block in function.blocks() {
         for instruction in block.instructions() {
             match *instruction.operation() {
@@ -58,11 +60,12 @@ pub fn dead_code_elimination(function: &il::Function) -> Result<il::Function, Er
                         function,
                         il::RefFunctionLocation::Instruction(block, instruction),
                     );
-                    if let Some(state) = rd.get(&rpl.into()) {
-                        state.locations().iter().for_each(|location| {
+                    reaching_definitions::reaching_definitions_in(&rd, &rpl)?
+                        .locations()
+                        .iter()
+                        .for_each(|location| {
                             live.insert(location.function_location().clone());
                         });
-                    }
                 }
                 _ => {}
             }
